@@ -24,9 +24,9 @@ SO = {"threads": 1, "time_limit": 20}
 
 FLOWCLS = W.FD + W.ERR
 KINDS = ["non_string_nodes", "cyclic_for_dag", "no_source", "no_sink", "negative_weight", "missing_weight", "non_conserving", "constraint_absent_edge",
-         "constraint_not_list", "constraint_entry_none", "constraint_entry_number", "constraint_mixed_node_string", "nonfinite_weight", "coverage_invalid_without_constraints", "slightly_non_conserving", "non_conserving_zero_side", "constraint_empty", "constraint_not_tuples", "constraint_edge_as_list", "k_zero_superset", "k_negative_superset", "coverage_zero", "coverage_negative", "coverage_above_one", "coverage_nan",
+         "constraint_not_list", "constraint_entry_none", "constraint_entry_number", "constraint_mixed_node_string", "nonfinite_weight", "coverage_invalid_without_constraints", "coverage_length_invalid_without_constraints", "start_or_end_is_an_edge_tuple", "slightly_non_conserving", "non_conserving_zero_side", "constraint_empty", "constraint_not_tuples", "constraint_edge_as_list", "k_zero_superset", "k_negative_superset", "superset_negative_entry", "superset_fractional_entry_for_int", "coverage_zero", "coverage_negative", "coverage_above_one", "coverage_nan",
          "coverage_above_one_with_length", "coverage_nan_with_length", "coverage_inf_with_length", "coverage_length_zero", "coverage_length_above_one", "coverage_length_nan", "coverage_length_without_attr", "k_zero", "k_negative",
-         "weight_type_str", "weight_type_complex", "weight_type_bool", "weight_type_subclass", "origin_unknown", "unknown_start", "unknown_end", "scale_above_one", "scale_negative", "ignore_malformed",
+         "weight_type_str", "weight_type_complex", "weight_type_bool", "weight_type_subclass", "origin_unknown", "unknown_start", "unknown_end", "scale_above_one", "scale_negative", "scale_nan", "ignore_malformed",
          "plr_mismatch", "plf_float", "empty_graph"]
 
 
@@ -51,6 +51,10 @@ def applicable(cls, kind, inst, meta):
         return not cover
     if kind == "coverage_invalid_without_constraints":
         return True
+    if kind == "coverage_length_invalid_without_constraints":
+        return not cyc and not node
+    if kind == "start_or_end_is_an_edge_tuple":
+        return node and cls not in ("kFlowDecomp",)
     if kind == "slightly_non_conserving":
         return cls in ("kFlowDecomp", "MinFlowDecomp", "MinFlowDecompCycles") and not node and "elements_to_ignore" not in kw and kw.get("weight_type") == "float" \
             and not kw.get("additional_starts") and not kw.get("additional_ends")      # (flow may begin / end at declared extra start / end nodes)
@@ -58,7 +62,7 @@ def applicable(cls, kind, inst, meta):
         return not node and not cyc          # (coverage by length exists for the DAG models only)
     if kind.startswith("constraint") or kind.startswith("coverage"):
         return not node
-    if kind in ("k_zero_superset", "k_negative_superset"):
+    if kind in ("k_zero_superset", "k_negative_superset", "superset_negative_entry", "superset_fractional_entry_for_int"):
         return cls in ("kFlowDecomp", "kLeastAbsErrors", "kMinPathError") and "elements_to_ignore" not in kw
     if kind in ("k_zero", "k_negative"):
         return cls.startswith("k")
@@ -77,7 +81,7 @@ def mutate(kind, cls, inst, meta, rng):
     """returns a mutated copy of inst (JSON level) or a callable producing (G, kwargs) for cases JSON cannot express"""
     inst = copy.deepcopy(inst); kw = inst["kw"]; sp = inst["spec"]
     cyc = cls.endswith("Cycles"); node = meta["mode"] == "node"; ckey = "subset_constraints" if cyc else "subpath_constraints"
-    if not sp["edges"] and kind in ("cyclic_for_dag", "constraint_not_list", "constraint_not_tuples", "ignore_malformed", "scale_above_one", "scale_negative", "non_conserving", "no_source", "no_sink"):
+    if not sp["edges"] and kind in ("cyclic_for_dag", "constraint_not_list", "constraint_not_tuples", "ignore_malformed", "scale_above_one", "scale_negative", "scale_nan", "non_conserving", "no_source", "no_sink"):
         return None
     special = None
     # elements that do not count: explicitly ignored ones and those with error scale 0 (documented as equivalent to ignoring)
@@ -180,6 +184,14 @@ def mutate(kind, cls, inst, meta, rng):
             else:
                 return None
         kw["weight_type"] = "float"
+    elif kind == "coverage_length_invalid_without_constraints":
+        kw.pop(ckey, None); kw.pop(ckey + "_coverage", None)
+        kw["subpath_constraints_coverage_length"] = rng.choice([1.5, 7, 0, -1, float("nan")]); kw["length_attr"] = "len"
+    elif kind == "start_or_end_is_an_edge_tuple":
+        if not sp["edges"]:
+            return None
+        inst["_tuple_for"] = rng.choice(["additional_starts", "additional_ends"]); inst["_tuple"] = [sp["edges"][0][0], sp["edges"][0][1]]
+        special = "edge_tuple_as_start_or_end"
     elif kind == "coverage_invalid_without_constraints":
         kw.pop(ckey, None); kw.pop("subpath_constraints_coverage_length", None)
         kw[ckey + "_coverage"] = rng.choice([1.5, 0, -2, float("nan")])
@@ -208,6 +220,16 @@ def mutate(kind, cls, inst, meta, rng):
     elif kind in ("k_zero_superset", "k_negative_superset"):
         kw["k"] = 0 if kind == "k_zero_superset" else -1
         kw["solution_weights_superset"] = [5, 3, 2] if kw.get("weight_type") == "int" else [5.0, 3.0, 0.5]
+    elif kind == "superset_negative_entry":
+        kw["solution_weights_superset"] = ([5, -2, 3] if kw.get("weight_type") == "int" else [5.0, -2.0, 0.5])
+    elif kind == "superset_fractional_entry_for_int":
+        kw["weight_type"] = "int"; kw["solution_weights_superset"] = [2.5, 2.5, 1]
+        for e in sp["edges"]:
+            if isinstance(e[2].get("flow"), float):
+                e[2]["flow"] = int(e[2]["flow"])
+        for n_ in sp["nodes"]:
+            if isinstance(n_[1].get("flow"), float):
+                n_[1]["flow"] = int(n_[1]["flow"])
     elif kind.startswith("coverage"):
         if not kw.get(ckey):
             if not sp["edges"]:
@@ -244,9 +266,9 @@ def mutate(kind, cls, inst, meta, rng):
         kw["additional_starts"] = ["zz_unknown_node"]
     elif kind == "unknown_end":
         kw["additional_ends"] = ["zz_unknown_node"]
-    elif kind in ("scale_above_one", "scale_negative"):
+    elif kind in ("scale_above_one", "scale_negative", "scale_nan"):
         el = sp["nodes"][0][0] if node else [sp["edges"][0][0], sp["edges"][0][1]]
-        kw["error_scaling"] = [[el, 1.5 if kind == "scale_above_one" else -0.25]]
+        kw["error_scaling"] = [[el, {"scale_above_one": 1.5, "scale_negative": -0.25, "scale_nan": float("nan")}[kind]]]
     elif kind == "ignore_malformed":
         kw["elements_to_ignore"] = [[sp["edges"][0][0], sp["edges"][0][1]]] if node and sp["edges"] else [sp["nodes"][0][0]]
         special = "raw_ignore"
@@ -302,6 +324,8 @@ def construct_special(inst):
         kw[key] = [[[sp["edges"][0][0], sp["edges"][0][1]]]]          # an edge written as a list instead of a tuple
     if special == "raw_ignore":
         pass
+    if special == "edge_tuple_as_start_or_end":
+        kw[inst["_tuple_for"]] = [tuple(inst["_tuple"])]
     if special in ("mixed_node_string", "raw_entries"):
         key = "subset_constraints" if inst["cls"].endswith("Cycles") else "subpath_constraints"
         kw[key] = [([tuple(e) if isinstance(e, list) else e for e in c] if isinstance(c, list) else c) for c in inst["_rawcons"]]
@@ -343,7 +367,7 @@ def gen_cases(tier, seed):
         for i in range(per * 7):
             cases.append({"kind": "converse", "cls": cls, "rs": f"C19c:{seed}:{cls}:{i}"})
     for i in range(per * 6):
-        cases.append({"kind": "aux", "rs": f"C19a:{seed}:{i}", "which": i % 15})
+        cases.append({"kind": "aux", "rs": f"C19a:{seed}:{i}", "which": i % 17})
     for cls in ("kFlowDecomp", "MinFlowDecomp", "MinFlowDecompCycles"):
         for i in range(per * 3):
             cases.append({"kind": "history", "cls": cls, "rs": f"C19h:{seed}:{cls}:{i}"})
@@ -545,6 +569,8 @@ def run_case(case):
         ("MinErrorFlow/non-string-nodes/acyclic", lambda: fp.MinErrorFlow(_intg([(0, 1), (1, 2), (2, 3)]), flow_attr="flow", solver_options=dict(SO))),
         ("MinErrorFlow/non-string-nodes/cyclic", lambda: fp.MinErrorFlow(_intg([(0, 1), (1, 2), (2, 1), (2, 3)]), flow_attr="flow", solver_options=dict(SO))),
         ("MinErrorFlow/non-string-nodes/tuple-node-cyclic", lambda: fp.MinErrorFlow(_intg([(("a", 1), ("a", 1))]), flow_attr="flow", solver_options=dict(SO))),
+        ("MinErrorFlow/nan-weight/acyclic", lambda: fp.MinErrorFlow(_intg([("a", "b"), ("b", "c")], w=float("nan")), flow_attr="flow", solver_options=dict(SO))),
+        ("MinErrorFlow/inf-weight/cyclic", lambda: fp.MinErrorFlow(_intg([("a", "b"), ("b", "a"), ("b", "c")], w=float("inf")), flow_attr="flow", solver_options=dict(SO))),
         ("stDAG/unknown-start", lambda: fp.stDAG(G, additional_starts=["zz"])),
         ("stDiGraph/no-source", lambda: fp.stDiGraph(nx.DiGraph([("a", "b"), ("b", "a")]))),
         ("SolverWrapper/unknown-solver", lambda: __import__("flowpaths.utils.solverwrapper", fromlist=["x"]).SolverWrapper(external_solver="cplex")),
